@@ -2728,8 +2728,8 @@ class Entity(MutableMapping[str, str]):
                     raise ValueError(f'Unrecognised block keyvalue "{name}" in entity!')
             elif name == "id" and item.value.isnumeric():
                 ent_id = int(item.value)
-            elif name.startswith('replace') and name[7:].isdecimal():
-                ind_str = name[-2:]  # Index is the last 2 digits
+            elif name.startswith('replace') and len(name) >= 9 and name[7:].isdecimal():
+                ind_str = name[7:]  # Index is all the digits, at least two are always written.
                 try:
                     index = int(ind_str)
                 except ValueError:  # Not a replace value!
